@@ -13,6 +13,8 @@
   * `EncJson.depth T` : the nesting depth of the schema, the fuel the Spec needs.
 -/
 import JSV.Proofs.InfSound
+import JSV.Proofs.InfEmbSound
+import JSV.Proofs.EncEmbCons
 namespace JSV.C04
 open JSV Go EncJson Spec
 
@@ -80,6 +82,131 @@ theorem infer_sound_nil_pointer (opts : IOpts) (fuel : Nat) (T : GoType) (st : S
     Spec.valid (specEnvNoRefs st' re) fuel' id .null = some true :=
   infer_sound opts fuel (.ptr T) st id st' re hnfs hdom h .nilPtr trivial fuel' hf
 
+
+/-! ## embedded struct fields (`forTypeE`, JSV/Model/InferEmb.lean; json.Marshal: `EncJsonEmb.encodeE`) -/
+
+open EncJsonEmb in
+/-- **main, with embedded fields (partial)**: for a type of the domain `InDomainE` — `InDomain` plus embedded fields
+    that are untagged exported declared struct types, by value or by pointer, such that within every tree of embedded
+    structs the JSON name of a field is determined by its Go name and vice versa and no Go name occurs twice at one
+    depth (`namesOk`) — the schema `ForType` returns accepts the JSON encoding of every value of the type.  A value
+    of the type has non-nil embedded pointers (`HasTypeE`): through a nil embedded pointer json.Marshal leaves out the
+    promoted fields, the required ones included.
+
+    `hno` (`EmbNotInTable`): no embedded field, at any level of `T`, is of a type with a TypeSchemas entry (other
+    entries, e.g. the initial ones for time.Time …, do not matter; `embNotInTable_of_empty` for the empty table).  With
+    an override of an embedded type the statement is false in general: the override replaces the promoted properties
+    by its own, and `additionalProperties: false` then rejects the promoted members.
+
+    Partial, what is missing: types outside `InDomainE`: D14 (a JSON name shared by two Go names), D16 (tagged /
+    non-struct embedded fields), named types in non-embedded positions (as in `infer_sound`). -/
+theorem infer_soundE_partial (opts : IOpts) (fuel : Nat) (T : GoTypeE) (st : Store) (id : NodeId) (st' : Store)
+    (re : String → String → Bool) (hnfs : opts.nullForSlices = true) (hno : EmbNotInTable opts T)
+    (hdom : InDomainE T = true) (h : forTypeE opts fuel T st = .ok (some id, st')) (v : GoValue) (hv : HasTypeE T v)
+    (fuel' : Nat) (hf : depthE T ≤ fuel') :
+    Spec.valid (specEnvNoRefs st' re) fuel' id (encodeE T v) = some true := by
+  obtain ⟨id', hid, hm⟩ := inferFuelE_models opts fuel T [] st (some id) st' hdom hno h
+  cases hid
+  rw [hnfs] at hm
+  exact valid_iff_isSome.1 ((soundE (re := re) (wt T) T (Nat.le_refl _) hdom false id hm fuel' [] hf).2 v hv)
+
+open EncJsonEmb in
+/-- on the domain `ForType` never drops the type -/
+theorem infer_someE (opts : IOpts) (fuel : Nat) (T : GoTypeE) (st : Store) (r : Option NodeId) (st' : Store)
+    (hdom : InDomainE T = true) (h : forTypeE opts fuel T st = .ok (r, st')) : ∃ id, r = some id :=
+  inferFuelE_some opts fuel T [] st r st' hdom h
+
+open EncJsonEmb in
+/-- the schema built for a type of the domain is the schema of the type with its embedded structs dissolved
+    (`flatten`: the fields of a struct are its live visible fields), in the sense of `Go.Models` -/
+theorem infer_models_flatten (opts : IOpts) (fuel : Nat) (T : GoTypeE) (st : Store) (id : NodeId) (st' : Store)
+    (hno : EmbNotInTable opts T) (hdom : InDomainE T = true)
+    (h : forTypeE opts fuel T st = .ok (some id, st')) : Models opts.nullForSlices st' (flatten T) false id := by
+  obtain ⟨id', hid, hm⟩ := inferFuelE_models opts fuel T [] st (some id) st' hdom hno h
+  cases hid
+  exact hm
+
+open EncJsonEmb in
+/-- **the spec with embedded fields is conservative over the spec without**: on a type without embedded fields
+    (`GoType.toE`) typing is the same; on `InDomain` (pairwise distinct JSON names, H_D14) `typeFields`, json.Marshal
+    and the strict decoder are the same; and `InDomainE` contains `InDomain` (for structs with pairwise distinct Go
+    field names) -/
+theorem encJsonEmb_conservative (T : GoType) :
+    (∀ v, HasTypeE T.toE v ↔ HasType T v) ∧
+    (InDomain T = true → (∀ v, encodeE T.toE v = encode T v) ∧ (∀ j, decodableE T.toE j = decodable T j)) ∧
+    (InDomain T = true → DistinctNames T = true → InDomainE T.toE = true) :=
+  ⟨hasTypeE_toE T, fun h => ⟨fun v => encodeE_toE T v h, fun j => decodableE_toE T j h⟩, inDomainE_toE T⟩
+
+open EncJsonEmb in
+/-- … `typeFields` of a struct without embedded fields: the non-omitted fields in declaration order -/
+theorem typeFields_conservative (fs : List (String × String × GoType)) (h : nodup (jsonNames fs) = true) :
+    fieldNames (fieldsToE fs) = jsonNames fs ∧ alwaysFieldNames (fieldsToE fs) = alwaysNames fs :=
+  ⟨fieldNames_toE fs h, alwaysFieldNames_toE fs h⟩
+
+/-! ### the hypotheses of `infer_soundE_partial` are satisfiable (labelled tests)
+
+  `tagLookup` splits the tag with `String.splitOn`, which the kernel does not evaluate; what the tag parser returns
+  for each tag is a hypothesis here (the parser is specified in C16: `fieldJSONInfo_named`, `fieldJSONInfo_no_tag`). -/
+
+/-- an exported, non-embedded field -/
+def fld (g tag : String) (t : GoTypeE) : FieldE GoTypeE :=
+  { goName := g, tag := tag, exported := true, embedded := false, type := t }
+/-- an exported embedded field -/
+def emb (g tag : String) (t : GoTypeE) : FieldE GoTypeE :=
+  { goName := g, tag := tag, exported := true, embedded := true, type := t }
+
+/-- `struct{ Inner; A int "json:\"a\"" }` with `type Inner struct { X int "json:\"x\""; Y string "json:\"y,omitempty\"" }` -/
+def embedValT (tI tX tY tA : String) : GoTypeE :=
+  .struct [emb "Inner" tI (.named "Inner" (.struct [fld "X" tX (.basic "Int"), fld "Y" tY (.basic "String")])),
+           fld "A" tA (.basic "Int")]
+
+section WitnessesE
+open EncJsonEmb
+variable (tI tX tY tA : String)
+  (hI : tagLookup "json" tI = none)                                        -- the embedded field has no json tag
+  (hX : fieldJSONInfo "X" tX = { name := "x" }) (hY : fieldJSONInfo "Y" tY = { name := "y", omitempty := true })
+  (hA : fieldJSONInfo "A" tA = { name := "a" })
+include hI hX hY hA
+
+theorem embedVal_inDomain : InDomainE (embedValT tI tX tY tA) = true := by
+  have v1 : validTagName "x" = true := by decide
+  have v2 : validTagName "y" = true := by decide
+  have v3 : validTagName "a" = true := by decide
+  have d1 : "Int" ∈ domainKinds := by decide
+  have d2 : "String" ∈ domainKinds := by decide
+  simp [embedValT, fld, emb, InDomainE, inDomainFieldsE, inDomainEmbE, namesOk, pairOk, live, jsonNameOf, allFields, embFields,
+    hI, hX, hY, hA, fieldTagOk, v1, v2, v3, d1, d2]
+
+/-- the value `{Inner: {X: 1, Y: ""}, A: 2}` -/
+theorem embedVal_hasType : HasTypeE (embedValT tI tX tY tA) (.struct [.struct [.int 1, .str ""], .int 2]) := by
+  have hIo := (fieldJSONInfo_untagged (g := "Inner") (tag := tI) (by rw [hI]; rfl))
+  simp [embedValT, fld, emb, HasTypeE, HasTypeFieldsE, HasTypeEmbE, classify, isStructE, derefE, hIo.1, hIo.2, hX, hY, hA,
+    basicHasType, intRange]
+  exact ⟨⟨_, _, ⟨rfl, rfl⟩, by decide, by decide⟩, ⟨_, _, ⟨rfl, rfl⟩, by decide, by decide⟩⟩
+
+/-- `infer_soundE_partial` applied: the value marshals to `{"x":1,"a":2}` (`y` is empty and omitempty), which the
+    inferred schema accepts -/
+example (id : NodeId) (st' : Store) (h : forTypeE {} 3 (embedValT tI tX tY tA) #[] = .ok (some id, st')) :
+    Spec.valid (specEnvNoRefs st') 4 id (.obj [("x", .num 1), ("a", .num 2)]) = some true := by
+  have hIo := (fieldJSONInfo_untagged (g := "Inner") (tag := tI) (by rw [hI]; rfl))
+  have := infer_soundE_partial {} 3 _ #[] id st' (fun _ _ => false) rfl
+    ((embNotInTable_of_empty (opts := {}) (fun _ => rfl) _).1 _ (Nat.le_refl _))
+    (embedVal_inDomain tI tX tY tA hI hX hY hA) h _ (embedVal_hasType tI tX tY tA hI hX hY hA) 4
+    (by simp [embedValT, fld, emb, depthE, depthFieldsE])
+  simpa [embedValT, fld, emb, encodeE, encodeFieldsE, encodeEmbE, candidates, embCandidates, classify, mkTField, isDominant,
+    dominates, isStructE, derefE, hIo.1, hIo.2, hX, hY, hA, fieldSkipped, isEmptyValue] using this
+
+end WitnessesE
+
+/-- outside the domain (known finding D14): in `struct{ Y string "json:\"x\""; Inner }` the JSON name `x` belongs to
+    two Go names -/
+example (tI tX tY tY' : String)
+    (hX : fieldJSONInfo "X" tX = { name := "x" }) (hY : fieldJSONInfo "Y" tY = { name := "y", omitempty := true })
+    (hY' : fieldJSONInfo "Y" tY' = { name := "x" }) :
+    EncJsonEmb.InDomainE (.struct [fld "Y" tY' (.basic "String"),
+      emb "Inner" tI (.named "Inner" (.struct [fld "X" tX (.basic "Int"), fld "Y" tY (.basic "String")]))]) = false := by
+  simp [fld, emb, EncJsonEmb.InDomainE, EncJsonEmb.namesOk, EncJsonEmb.pairOk, EncJsonEmb.live, EncJsonEmb.jsonNameOf,
+    allFields, embFields, hX, hY, hY']
 
 /-! ## what the hypotheses exclude (labelled tests) -/
 
